@@ -47,7 +47,7 @@ def thunks(db):
     return out
 
 
-META_EXTRA = 'SRC (copying an inplace_function never relocates its const source).'
+META_EXTRA = "SRC (copying an inplace_function never relocates its const source); VT (vtable value vs storage content); instantiation witnesses for pair's converting members; PARAM."
 META = (META[0] + " " + META_EXTRA, META[1])
 
 
